@@ -503,6 +503,15 @@ func (g *G) InstancePlants(c *Change, n, m int) ([]Plant, []string) {
 	}
 	for i := 0; i < m; i++ {
 		t, _ := c.Instance(g)
+		if c.Kind == "stmts" && strings.HasPrefix(t, "for ") && g.R.Intn(2) == 0 {
+			// a labelled loop is a labelled statement, not a for statement: a near-miss of 'for ... {'
+			lt := "L" + g.fresh() + ":\n" + t
+			if PlantParses(c.Kind, lt) {
+				plants = append(plants, Plant{Kind: c.Kind, Text: lt})
+				kinds = append(kinds, "labelled-loop")
+				continue
+			}
+		}
 		for try := 0; try < 6; try++ {
 			mt, kind := g.Mutate(t)
 			if kind != "" && PlantParses(c.Kind, mt) {
